@@ -119,7 +119,11 @@ func (e *Engine) apply(vs ValSet, ups []types.ValidatorUpdate) error {
 			delete(vs, string(addr))
 			continue
 		}
-		vs[string(addr)] = &Validator{PubKey: pk, Address: addr, Power: u.Power, Keys: e.keysByCons[pk]}
+		keys := e.keysByCons[pk]
+		if keys == nil {
+			keys = lookupKeys(pk) // a node that registered at run time
+		}
+		vs[string(addr)] = &Validator{PubKey: pk, Address: addr, Power: u.Power, Keys: keys}
 	}
 	return nil
 }
